@@ -259,7 +259,9 @@ fn run_history(dir: &Path, img: &Image, ops: &[Op]) -> (Vec<String>, usize) {
         Err(e) => simcore::harness_error(&format!("C12 pristine manifest of {}: {e}", img.name)),
     };
     if !c0 || cc0 == Some(false) {
-        simcore::harness_error("C12 pristine manifest does not verify");
+        // before any rewrite: the manifest the creator wrote does not verify in this configuration
+        // (e.g. with short reads on the reader's streams) - a violation of the fault-free part
+        return (vec!["step -1 (before any rewrite): the pristine manifest's checks do not verify".into()], 0);
     }
     let original: Vec<String> = model.iter().map(|m| m.location.clone()).collect();
     // where the manifest and its slots are, according to the independent scanner
